@@ -84,7 +84,7 @@ struct Machine<'a> {
 
 impl Machine<'_> {
     fn rebuild(&self, hist: &[usize]) -> Result<Box<dyn ldpc_toolbox::decoder::LdpcDecoder>, String> {
-        let mut d = dec::factory_build(self.name, self.m.sparse())?;
+        let mut d = dec::factory_build(self.name, self.m.sparse_var())?;
         for &o in hist {
             let (vi, l) = self.ops[o];
             let _ = guard(|| d.decode(&self.vecs[vi], l))?;
@@ -107,12 +107,12 @@ fn explore(name: &str, mname: &str, m: &Small, thorough: bool, acc: &mut Acc) ->
     // fresh-decoder answers, one new decoder per op
     for &(vi, l) in &mach.ops {
         let r = guard(|| {
-            let mut d = dec::factory_build(name, m.sparse()).unwrap();
+            let mut d = dec::factory_build(name, m.sparse_var()).unwrap();
             d.decode(&mach.vecs[vi], l)
         });
         mach.fresh.push(r.ok());
     }
-    let init = dec::factory_build(name, m.sparse()).unwrap();
+    let init = dec::factory_build(name, m.sparse_var()).unwrap();
     let mut seen: HashMap<String, ()> = HashMap::new();
     seen.insert(format!("{:?}", init), ());
     let mut frontier: Vec<Vec<usize>> = vec![vec![]];
@@ -202,12 +202,12 @@ fn replay_element(v: &Value, acc: &mut Acc) {
         }
     }
     let hist: Vec<usize> = v["ops"].as_array().unwrap().iter().map(|x| x.as_u64().unwrap() as usize).collect();
-    let mut d = dec::factory_build(name, m.sparse()).unwrap();
+    let mut d = dec::factory_build(name, m.sparse_var()).unwrap();
     for (step, &o) in hist.iter().enumerate() {
         acc.evals += 1;
         let (vi, l) = ops[o];
         let got = guard(|| d.decode(&vecs[vi], l));
-        let fresh = guard(|| dec::factory_build(name, m.sparse()).unwrap().decode(&vecs[vi], l));
+        let fresh = guard(|| dec::factory_build(name, m.sparse_var()).unwrap().decode(&vecs[vi], l));
         if got != fresh {
             acc.violate(format!("stateless:{}:{}:replay", name, mname), format!("step {}: {:?} vs fresh {:?}", step, got.as_ref().map(dec::show), fresh.as_ref().map(dec::show)), v.clone());
             return;
